@@ -401,6 +401,12 @@ def finish(ctx, replay_in_process=None):
         print(f"VIOLATION property={ctx.pid} replay={path}")
         print(f"  instance={c['key']} clause={c['clause']}: {c['what']}")
     for path, c, out in list(notrepro):
+        if "raises" in str(c.get("clause", "")) and "_raised" not in (c.get("inputs") or {}):
+            # the library raised while it was executed on shadow / symbolic values, but does not raise on the concrete values
+            # of the model: the (possibly changed) code is not executable symbolically here - no verdict, not a broken check
+            ctx.inconc(c["key"], "raised on symbolic values only (not on the concrete replay): not executable symbolically, no verdict: " + str(c.get("what", ""))[:120])
+            notrepro.remove((path, c, out))
+            continue
         if c.get("inputs", {}).get("abstract"):
             # the obligation was decided over an over-approximating abstraction (e.g. an uninterpreted ln):
             # a model that does not reproduce is spurious, the instance is inconclusive
